@@ -17,9 +17,11 @@ MANIFEST = {
                 "Buffer.hpp method by method and branch by branch (constructors, attach, operator=, assign, both prepend/append overloads "
                 "incl. a.prepend(a)/a.append(a)/a=a, resize, reserve, removeFront/Back, clear, swap, free).  The model is tied to the current "
                 "Buffer.hpp on every run: identical op lines are executed by a harness built from the current sources (fresh memory "
-                "poisoned, guard bytes around attached ranges, exactly sized heap copies of data arguments) and by the compiled model; size, "
-                "bytes, ownership flag, the byte after the data and the region contents are compared after every operation, and an "
-                "independent Python reference queue is evaluated on the implementation's output.",
+                "poisoned, attached ranges and data arguments handed out as exactly sized heap blocks so that ASan sees any access outside "
+                "them, attached blocks compared with their source after every op) and by the compiled model; size, bytes, ownership flag, the "
+                "byte after the data and the region contents are compared after every operation, `state` lines additionally compare "
+                "_capacity, head-room and where the pointers point (the branch-selecting state), and an independent Python reference queue "
+                "is evaluated on the implementation's output.  Evidence lists how often every branch of Buffer.hpp was taken.",
         "note": "Trusted: Lean kernel + propext/Classical.choice/Quot.sound; the hand translation of Buffer.hpp into Model.lean (validated "
                 "by the correspondence run, not proved).  Modelled rather than verified: memory is one checked block per Buffer object held by "
                 "value (every Buffer owns its allocation exclusively), so delete[] bookkeeping is not modelled: double free / use of a stale "
@@ -65,6 +67,9 @@ def reference(hist, impl_out):
         op = t[0]
         v = int(t[1]) if len(t) > 1 else 0
         w = int(t[2]) if len(t) > 2 and op in ("copy", "assignb", "prependb", "appendb", "swap", "eq") else 0
+        if op == "state":
+            out.append(None)        # white-box line: compared with the model only
+            continue
         if op == "eq":
             # bytes exposed by a growing resize are unspecified: the comparison is determined only if the
             # lengths differ, a specified pair differs, or everything is specified
@@ -183,6 +188,7 @@ def gen_history(rng, length, attached_regions=True, big=False):
         elif k < 0.90: op = f"newdata {v} {rand_bytes(rng, n)}"; ln[v] = n
         elif k < 0.92: op = f"copy {v} {w}"; ln[v] = ln[w]
         elif k < 0.94: op = f"eq {v} {w}"
+        elif k < 0.955: op = f"state {v}"
         elif attached_regions:
             r = rng.randrange(2)
             off = rng.randrange(REGLEN[r] + 1)
@@ -208,6 +214,7 @@ def gen_server(rng, length):
         elif k < 0.85:
             n = rng.choice([1, 2, ln // 2, max(0, ln - 1), ln, ln + 1]) if ln else 1
             h.append(f"removeFront 0 {n}"); ln = max(0, ln - n)
+            h.append("state 0")
             if ln == 0 and rng.random() < 0.5:
                 h.append("free 0")
         elif k < 0.92:
@@ -229,7 +236,8 @@ SMALL_OPS = [
 
 
 def exhaustive(depth, rng=None, limit=None):
-    hs = [list(p) for d in range(1, depth + 1) for p in itertools.product(SMALL_OPS, repeat=d)]
+    # every history ends with the white-box view of both variables (all prefixes are histories of the scope too)
+    hs = [list(p) + ["state 0", "state 1"] for d in range(1, depth + 1) for p in itertools.product(SMALL_OPS, repeat=d)]
     if limit and len(hs) > limit:
         rng.shuffle(hs)
         hs = hs[:limit]
@@ -251,7 +259,7 @@ def boundary_family(maxcap):
                     d = hexs([0x41 + i for i in range(n)])
                     tails += [f"resize 0 {n}", f"append 0 {d}", f"prepend 0 {d}", f"assign 0 {d}", f"removeBack 0 {n}",
                               f"reserve 0 {n}"]
-                hs += [pre + [t, "prepend 0 7a", "eq 0 1"] for t in tails]
+                hs += [pre + [t, "state 0", "state 1", "prepend 0 7a", "eq 0 1", "state 0"] for t in tails]
     return hs
 
 
@@ -259,7 +267,10 @@ def nontrivial(h, out):
     """distinct = distinct (set of op kinds, final observation); non-trivial = at least 3 ops and a non-empty buffer"""
     if len(h) < 3 or not out:
         return None
-    last = out[-1]
+    obs = [o for o in out if " # " in o]
+    if not obs:
+        return None
+    last = obs[-1]
     if last.startswith("0 - ") and " | 0 - " in last:
         return None
     return (frozenset(l.split()[0] for l in h), last)
